@@ -115,27 +115,7 @@ func checkC33(p *Prog, r *Result, tier string) {
 	}
 	aff := G.paramObj(1)
 	// locals filled inside a loop that ranges over the affinity map are affinity-derived
-	derived := map[types.Object]bool{}
-	G.inspectBody(func(n ast.Node) bool {
-		rs, ok := n.(*ast.RangeStmt)
-		if !ok || G.objOf(rs.X) != aff {
-			return true
-		}
-		inspectNoLit(rs.Body, func(x ast.Node) bool {
-			if as, ok := x.(*ast.AssignStmt); ok {
-				for _, l := range as.Lhs {
-					if base, _ := indexBaseObj(G, l); base != nil {
-						derived[base] = true
-					}
-					if o := G.objOf(l); o != nil {
-						derived[o] = true
-					}
-				}
-			}
-			return true
-		})
-		return true
-	})
+	derived := derivedFrom(G, aff)
 	// TOPO: every topology lookup (core -> numa node) in the planner uses the capacity's topology, the one the per-node
 	// core maps are built from
 	{
@@ -177,53 +157,37 @@ func checkC33(p *Prog, r *Result, tier string) {
 				why = "the per-numa-node plans are produced while ranging over a map: the order of the returned plans is arbitrary, and with two eligible numa nodes a re-allocation without change lands on either of them"
 				return true
 			}
-			// slice: sorted by a comparator that (through local closures) reads the affinity parameter
-			sl := exprStr(rs.X)
-			why = "the node id list is not sorted before the loop"
-			G.inspectBody(func(x ast.Node) bool {
-				c, ok := x.(*ast.CallExpr)
-				if !ok || c.Pos() > rs.Pos() {
-					return true
-				}
-				f := G.Callee(c)
-				if f == nil || !isSortSlice(f) || exprStr(c.Args[0]) != sl || !G.dominates(G.find(c), G.find(rs.X)) {
-					return true
-				}
-				// does the comparator reach the affinity map?
-				reads := false
-				var seenLits = map[*ast.FuncLit]bool{}
-				var scan func(n ast.Node)
-				scan = func(n ast.Node) {
-					ast.Inspect(n, func(y ast.Node) bool {
-						if id, ok := y.(*ast.Ident); ok {
-							o := G.objOf(id)
-							if o == aff {
-								reads = true
-							}
-							// local closure variable: follow its literal
-							if v, ok := o.(*types.Var); ok && !v.IsField() {
-								if def := G.singleDef(o); def != nil {
-									if fl, ok := unparen(def).(*ast.FuncLit); ok && !seenLits[fl] {
-										seenLits[fl] = true
-										scan(fl.Body)
-									}
-								}
-								if derived[o] {
-									reads = true
-								}
-							}
+			// slice: sorted by a comparator that (through local closures) reads the affinity parameter — in the planner
+			// itself, or in a local helper that returns the ordered list and is handed the affinity map
+			why = sortedByAffinity(p, G, exprStr(rs.X), rs.X, aff, derived)
+			if c, ok := unparen(rs.X).(*ast.CallExpr); ok && why != "" {
+				if H := p.ByObj[G.Callee(c)]; H != nil && H.Body != nil && H.Pkg == G.Pkg {
+					var haff types.Object
+					for i, a := range c.Args {
+						if G.objOf(a) == aff {
+							haff = H.paramObj(i)
+						}
+					}
+					// the single returned variable
+					var ret *ast.ReturnStmt
+					nret := 0
+					inspectNoLit(H.Body, func(x ast.Node) bool {
+						if rt, ok := x.(*ast.ReturnStmt); ok {
+							nret++
+							ret = rt
 						}
 						return true
 					})
+					switch {
+					case haff == nil:
+						why = "the helper that orders the node ids is not handed the affinity map: the numa node holding the origin cores is not guaranteed to be planned first"
+					case nret != 1 || len(ret.Results) != 1 || H.objOf(ret.Results[0]) == nil:
+						why = "the helper that orders the node ids does not return one list variable: the rule cannot tell how it is ordered"
+					default:
+						why = sortedByAffinity(p, H, exprStr(ret.Results[0]), ret, haff, derivedFrom(H, haff))
+					}
 				}
-				scan(c.Args[1])
-				if reads {
-					why = ""
-				} else {
-					why = "the node ids are sorted, but the order ignores the affinity map: the numa node holding the origin cores is not guaranteed to be planned first"
-				}
-				return true
-			})
+			}
 			return true
 		})
 		r.check2(why, "NO", G.Name+" / numa nodes are planned in a fixed order, the origin cores' node first", p.pos(at), "range over node ids sorted by (holds origin cores, id)")
@@ -447,13 +411,9 @@ func checkC33(p *Prog, r *Result, tier string) {
 		r.undecided("KEEP", "resource/plugins/cpumem.Plugin.CalculateRealloc", "", "not found")
 	} else {
 		why := "no branch keeps the origin's cores when the new request asks for the same CPU amount: every bound re-allocation goes through the planner and takes its first plan, which for a workload placed across numa nodes is a single-node plan on other cores as soon as one node has room"
-		C.inspectBody(func(n ast.Node) bool {
-			is, ok := n.(*ast.IfStmt)
-			if !ok {
-				return true
-			}
+		forEachCondBranch(C.Body, func(cond ast.Expr, body []ast.Stmt, _ ast.Node) {
 			sameAmt := false
-			for _, cj := range splitOp(is.Cond, token.LAND) {
+			for _, cj := range splitOp(cond, token.LAND) {
 				be, ok := unparen(cj).(*ast.BinaryExpr)
 				if !ok || be.Op != token.EQL {
 					continue
@@ -465,10 +425,10 @@ func checkC33(p *Prog, r *Result, tier string) {
 				}
 			}
 			if !sameAmt {
-				return true
+				return
 			}
 			keepsMap, keepsNode := false, false
-			for _, st := range is.Body.List {
+			for _, st := range body {
 				if as, ok := st.(*ast.AssignStmt); ok && len(as.Rhs) == 1 {
 					if sel, ok := unparen(as.Rhs[0]).(*ast.SelectorExpr); ok {
 						switch sel.Sel.Name {
@@ -483,10 +443,86 @@ func checkC33(p *Prog, r *Result, tier string) {
 			if keepsMap && keepsNode {
 				why = ""
 			}
-			return true
 		})
 		r.min("KEEP", 1)
 		r.check2(why, "KEEP", C.Name+" / a re-allocation that asks for the same CPU amount keeps the cores and the numa node", p.pos(C.Decl), "if newReq.CPURequest == origin.CPURequest && fits { cpuMap = origin.CPUMap; numaNode = origin.NUMANode }")
 	}
 
+}
+
+// derivedFrom: locals of fn filled inside a loop that ranges over the affinity map
+func derivedFrom(G *FuncNode, aff types.Object) map[types.Object]bool {
+	derived := map[types.Object]bool{}
+	G.inspectBody(func(n ast.Node) bool {
+		rs, ok := n.(*ast.RangeStmt)
+		if !ok || G.objOf(rs.X) != aff {
+			return true
+		}
+		inspectNoLit(rs.Body, func(x ast.Node) bool {
+			if as, ok := x.(*ast.AssignStmt); ok {
+				for _, l := range as.Lhs {
+					if base, _ := indexBaseObj(G, l); base != nil {
+						derived[base] = true
+					}
+					if o := G.objOf(l); o != nil {
+						derived[o] = true
+					}
+				}
+			}
+			return true
+		})
+		return true
+	})
+	return derived
+}
+
+// sortedByAffinity: in G the list written `sl` is sorted (sort.Slice dominating `use`) by a comparator that, through local
+// closures, reads the affinity map `aff` (or a local derived from it); "" when so, else what is missing.
+func sortedByAffinity(p *Prog, G *FuncNode, sl string, use ast.Node, aff types.Object, derived map[types.Object]bool) string {
+	why := "the node id list is not sorted before the loop"
+	G.inspectBody(func(x ast.Node) bool {
+		c, ok := x.(*ast.CallExpr)
+		if !ok || c.Pos() > use.Pos() {
+			return true
+		}
+		f := G.Callee(c)
+		if f == nil || !isSortSlice(f) || exprStr(c.Args[0]) != sl || !G.dominates(G.find(c), G.find(use)) {
+			return true
+		}
+		// does the comparator reach the affinity map?
+		reads := false
+		var seenLits = map[*ast.FuncLit]bool{}
+		var scan func(n ast.Node)
+		scan = func(n ast.Node) {
+			ast.Inspect(n, func(y ast.Node) bool {
+				if id, ok := y.(*ast.Ident); ok {
+					o := G.objOf(id)
+					if o == aff {
+						reads = true
+					}
+					// local closure variable: follow its literal
+					if v, ok := o.(*types.Var); ok && !v.IsField() {
+						if def := G.singleDef(o); def != nil {
+							if fl, ok := unparen(def).(*ast.FuncLit); ok && !seenLits[fl] {
+								seenLits[fl] = true
+								scan(fl.Body)
+							}
+						}
+						if derived[o] {
+							reads = true
+						}
+					}
+				}
+				return true
+			})
+		}
+		scan(c.Args[1])
+		if reads {
+			why = ""
+		} else {
+			why = "the node ids are sorted, but the order ignores the affinity map: the numa node holding the origin cores is not guaranteed to be planned first"
+		}
+		return true
+	})
+	return why
 }
